@@ -1,1 +1,14 @@
 -- modules of work area Limits (add imports here)
+import AM.Model.Bucket
+import AM.Lemmas.AListCount
+import AM.Props.C18Bucket
+import AM.Model.SilLimits
+import AM.Model.Sem
+import AM.Props.C18
+import AM.Model.Retry
+import AM.Model.Fanout
+import AM.Model.Trunc
+import AM.Model.TemplateData
+import AM.Props.C20
+import AM.Model.Gossip
+import AM.Props.C19
